@@ -40,8 +40,10 @@ come from the AST:
                its arguments and must have the same type at the loop head on every path that continues); falling off the end = `return None`
   conditions   not / and / or (short circuit); `isinstance(x, MutableMapping)` on the result of a call
                (narrows `x` to a mapping in the true branch); one ordering comparison whose operands are numeric
-               expressions over Python values: names, `a - b`, `a + b`, `abs(a)` -- a value that is not a number
-               raises TypeError at that point (`Filters.numOf?` is the declared reading of "is a number");
+               expressions over Python values: names, `a - b`, `abs(a)` in `Filters.XNum` (exact rationals and the
+               floats +inf, -inf, NaN; `>=`, `>`, `<=`, `<` are `XNum.le` / `XNum.lt` with swapped operands, a
+               negation swaps the branches: `a >= b` and `not (a < b)` are DIFFERENT terms, they differ on NaN) --
+               a value that is not a number raises TypeError at that point (`Filters.xnumOf?`);
                everything else through the value scheme `Tr` of py2lean.py (is [not] UNDEF / None, bool(x),
                conditional expressions with `is [not] None` narrowing of an Optional bool, truthiness)
   results      True / False / None -> `.other …`; a mapping -> `.mapping d`; the unknown result of a call as it
@@ -56,7 +58,8 @@ import ast
 import json
 import os
 
-LEAN_T = {'bool': 'Bool', 'optbool': 'Option Bool', 'val': 'Val', 'rat': 'Rat', 'data': 'Data', 'pyres': 'FRes'}
+LEAN_T = {'bool': 'Bool', 'optbool': 'Option Bool', 'val': 'Val', 'rat': 'Rat', 'xnum': 'XNum', 'data': 'Data',
+          'pyres': 'FRes'}
 ORDER = {ast.GtE: ('≤', True), ast.LtE: ('≤', False), ast.Gt: ('<', True), ast.Lt: ('<', False)}
 
 
@@ -148,20 +151,21 @@ class TrObj:
 
     # ---- numeric expressions over Python values (may raise TypeError) ------------------
     def num(self, node, env, ind, k):
+        """Python float/int arithmetic INCLUDING the non-finite floats: the operands are `Filters.XNum`
+        (exact rationals, +inf, -inf, NaN), `-` is `XNum.sub`, `abs` is `XNum.abs`"""
         pad = '  ' * ind
-        if isinstance(node, ast.BinOp) and isinstance(node.op, (ast.Sub, ast.Add)):
-            sym = '-' if isinstance(node.op, ast.Sub) else '+'
+        if isinstance(node, ast.BinOp) and isinstance(node.op, ast.Sub):
             return self.num(node.left, env, ind, lambda a, i: self.num(
-                node.right, env, i, lambda b, j: k(f'({a} {sym} {b})', j)))
+                node.right, env, i, lambda b, j: k(f'(XNum.sub {a} {b})', j)))
         if (isinstance(node, ast.Call) and isinstance(node.func, ast.Name) and node.func.id == 'abs'
                 and len(node.args) == 1 and not node.keywords):
-            return self.num(node.args[0], env, ind, lambda a, i: k(f'(pyAbs {a})', i))
+            return self.num(node.args[0], env, ind, lambda a, i: k(f'(XNum.abs {a})', i))
         text, ty = self.pure(node, env)
-        if ty == 'rat':
+        if ty == 'xnum':
             return k(text, ind)
         if ty == 'val' and isinstance(node, (ast.Name, ast.Attribute)):
             q = self.new(text + 'q')
-            return (f'{pad}match numOf? {text} with\n'
+            return (f'{pad}match xnumOf? {text} with\n'
                     f'{pad}| none => {self.wrap(".raise .typeError", env)}\n'
                     f'{pad}| some {q} =>\n{k(q, ind + 1)}')
         raise self.U(f'numeric operand {ast.unparse(node)} of type {ty}')
@@ -217,9 +221,12 @@ class TrObj:
             left, right = test.left, test.comparators[0]
 
             def fin(a, b, i):
+                # `a >= b` is `b <= a`, `a > b` is `b < a`; `<=` and `<` stay two different tests and a
+                # negation stays a swap of the branches: with a NaN operand `a >= b` and `not (a < b)` differ
                 x, y = (b, a) if swap else (a, b)
                 p2 = '  ' * i
-                return f'{p2}if {x} {sym} {y} then\n{kthen(env, i + 1)}\n{p2}else\n{kelse(env, i + 1)}'
+                fn = 'XNum.le' if sym == '≤' else 'XNum.lt'
+                return f'{p2}if {fn} {x} {y} then\n{kthen(env, i + 1)}\n{p2}else\n{kelse(env, i + 1)}'
             return self.num(left, env, ind, lambda a, i: self.num(right, env, i, lambda b, j: fin(a, b, j)))
         text, ty = self.pure(test, env)
         return (f'{pad}if {self.tr.truthy(text, ty)} then\n{kthen(env, ind + 1)}\n'
@@ -436,12 +443,12 @@ def targets(h):
              attrs={'self._rise': B, 'self._fall': B, 'self._urise': B, 'self._ufall': B},
              out='EdgeFlags', fall=edge_final, header=': the attributes the constructor stores'),
         dict(name='deltaInit', doc='filters.Delta.__init__', node=lambda: h.fn_ast(filters.Delta.__init__),
-             params=[('delta', 'Rat')], names={'delta': ('delta', 'rat')},
-             attrs={'self._delta': 'rat', 'self._last': V}, out='Rat × Val', fall=delta_final,
+             params=[('delta', 'XNum')], names={'delta': ('delta', 'xnum')},
+             attrs={'self._delta': 'xnum', 'self._last': V}, out='XNum × Val', fall=delta_final,
              header=': `(self._delta, self._last)` of the new object'),
         dict(name='deltaCall', doc='filters.Delta.__call__', node=lambda: h.fn_ast(filters.Delta.__call__),
-             params=[('delta', 'Rat'), ('last', 'Val'), ('data', 'Data')],
-             names={'self._delta': ('delta', 'rat'), 'self._last': ('last', 'val'), 'data': ('data', 'data')},
+             params=[('delta', 'XNum'), ('last', 'Val'), ('data', 'Data')],
+             names={'self._delta': ('delta', 'xnum'), 'self._last': ('last', 'val'), 'data': ('data', 'data')},
              attrs={'self._last': 'val'}, state=('self._last',), out='Val × FRes',
              header=': `self._last` afterwards and the result'),
         dict(name='ifOutputCall', doc='filters.IfOutput.__call__ (`out`: the control block\'s output)',
@@ -681,8 +688,6 @@ def main_filters(outfile, h):
          '   (blocklib/filters.py: Edge.__init__, Delta, IfOutput, IfNotIitialized, DataEdit.__call__;',
          '   block.SBlock.is_initialized) -- do not edit -/',
          'import EdzedModel.Filters', '', 'namespace Edzed.Gen.TrFo', 'open Edzed.Filters', '',
-         "/-- Python's `abs` on a number -/",
-         'def pyAbs (q : Rat) : Rat := if q < 0 then -q else q', '',
          '/-- how the result of a translated edit function (`Gen.TrF.edit…`, `EditOp.apply`) reads as the Python',
          '    object that the call `func(data)` produces: the dict, `None` (REJECT), or an exception -/',
          'def editResult : Except Stop Data → FRes',
